@@ -253,6 +253,7 @@ type c48Arm struct {
 }
 
 type c48Point struct {
+	extraGuard    []string
 	point, method string
 	looked        bool
 	arms          []c48Arm
@@ -271,6 +272,22 @@ func c48VerdictName(e ast.Expr) (string, bool) {
 }
 
 func c48IsNil(e ast.Expr) bool { id, ok := e.(*ast.Ident); return ok && id.Name == "nil" }
+
+// c48Guard: e is a conjunction one operand of which is `name != nil`; the other operands (text) are returned: a guard
+// that does more than the nil test makes the callback point conditional (fact pointGuards, theorem fails) but the
+// arms are still extracted, so that the correspondence run can look for a failing input.
+func (p *c48Pkg) guard(e ast.Expr, name string) (bool, []string) {
+	found := false
+	var extra []string
+	for _, o := range c48Operands(e, token.LAND) {
+		if c48NotNil(c48Unparen(o), name) {
+			found = true
+		} else {
+			extra = append(extra, c48Str(p.fset, o))
+		}
+	}
+	return found, extra
+}
 
 // c48NotNil: e is `name != nil` or `nil != name`.
 func c48NotNil(e ast.Expr, name string) bool {
@@ -542,19 +559,24 @@ func (p *c48Pkg) scan(fn string, list []ast.Stmt, top bool, out *[]c48Point) err
 		var hl, point string
 		var body []ast.Stmt
 		var after []ast.Stmt
+		var extra []string
 		found := false
 		if n, pt, ok := c48HandlerListAssign(st); ok && i+1 < len(list) {
-			if ifs, ok := list[i+1].(*ast.IfStmt); ok && ifs.Init == nil && ifs.Else == nil && c48NotNil(ifs.Cond, n) {
-				hl, point, body, after, found = n, pt, ifs.Body.List, list[i+2:], true
-			} else {
+			if ifs, ok := list[i+1].(*ast.IfStmt); ok && ifs.Init == nil && ifs.Else == nil {
+				if g, ex := p.guard(ifs.Cond, n); g {
+					hl, point, body, after, found, extra = n, pt, ifs.Body.List, list[i+2:], true, ex
+				}
+			}
+			if !found {
 				return fmt.Errorf("%s: `if %s != nil {` does not follow GetHandlerList(Handle%s)", fn, n, pt)
 			}
 		} else if ifs, ok := st.(*ast.IfStmt); ok && ifs.Init != nil {
 			if n, pt, ok := c48HandlerListAssign(ifs.Init); ok {
-				if ifs.Else != nil || !c48NotNil(ifs.Cond, n) {
+				g, ex := p.guard(ifs.Cond, n)
+				if ifs.Else != nil || !g {
 					return fmt.Errorf("%s: unexpected guard around GetHandlerList(Handle%s)", fn, pt)
 				}
-				hl, point, body, after, found = n, pt, ifs.Body.List, list[i+1:], true
+				hl, point, body, after, found, extra = n, pt, ifs.Body.List, list[i+1:], true, ex
 			}
 		}
 		if found {
@@ -562,6 +584,7 @@ func (p *c48Pkg) scan(fn string, list []ast.Stmt, top bool, out *[]c48Point) err
 			if err != nil {
 				return err
 			}
+			pt.extraGuard = extra
 			// an arm that falls off the block when only a bare `return` follows in the function returns
 			if top && c48OnlyBareReturn(after) {
 				for k := range pt.arms {
@@ -832,6 +855,17 @@ func init() {
 				b.WriteString(", ")
 			}
 			fmt.Fprintf(&b, "(%d, %v)", cps["Handle"+p.point], p.looked)
+		}
+		b.WriteString("]\n\n/-- callback points whose block is guarded by more than `hl != nil`: (point, extra conditions) — must be empty -/\ndef pointGuards : List (String × List String) := [")
+		first := true
+		for _, p := range points {
+			if len(p.extraGuard) > 0 {
+				if !first {
+					b.WriteString(", ")
+				}
+				first = false
+				fmt.Fprintf(&b, "(%s, %s)", leanStr(p.point), c48List(p.extraGuard))
+			}
 		}
 		b.WriteString("]\n\n")
 		cl := func(m map[string]int, prefix string) string {
